@@ -99,7 +99,7 @@ class SchDef(object):
 
     @elec.setter
     def elec(self, value):
-        self._elec = SchDef.check_week_validity(value, 'elec')
+        self._elec = SchDef.check_week_validity(value, 'elec', nonnegative=True)
 
     @property
     def gas(self):
@@ -112,7 +112,7 @@ class SchDef(object):
 
     @gas.setter
     def gas(self, value):
-        self._gas = SchDef.check_week_validity(value, 'gas')
+        self._gas = SchDef.check_week_validity(value, 'gas', nonnegative=True)
 
     @property
     def light(self):
@@ -125,7 +125,7 @@ class SchDef(object):
 
     @light.setter
     def light(self, value):
-        self._light = SchDef.check_week_validity(value, 'light')
+        self._light = SchDef.check_week_validity(value, 'light', nonnegative=True)
 
     @property
     def occ(self):
@@ -138,7 +138,7 @@ class SchDef(object):
 
     @occ.setter
     def occ(self, value):
-        self._occ = SchDef.check_week_validity(value, 'occ')
+        self._occ = SchDef.check_week_validity(value, 'occ', nonnegative=True)
 
     @property
     def cool(self):
@@ -177,7 +177,7 @@ class SchDef(object):
 
     @swh.setter
     def swh(self, value):
-        self._swh = SchDef.check_week_validity(value, 'swh')
+        self._swh = SchDef.check_week_validity(value, 'swh', nonnegative=True)
 
     @property
     def q_elec(self):
@@ -362,7 +362,7 @@ class SchDef(object):
         return base
 
     @staticmethod
-    def check_week_validity(week, name):
+    def check_week_validity(week, name, nonnegative=False):
         assert isinstance(week, (list, tuple)), 'The {} property must be a ' \
             'list or tuple. Got {}.'.format(name, week)
 
@@ -376,6 +376,8 @@ class SchDef(object):
                 assert isinstance(val, (float, int)), 'The {} property ' \
                     'must contain 3 lists of numbers. Got : {}.'.format(
                         name, val)
+                assert not nonnegative or val >= 0, 'The {} property must contain ' \
+                    'non-negative fractions. Got : {}.'.format(name, val)
         return week
 
     def __repr__(self):
